@@ -139,6 +139,12 @@ def count_gathers(a):
                 n += 1 + count_gathers(k) + count_gathers(v)
         return n
     items = a.get("L", a.get("T", a.get("S")))
+    if "S" in a:
+        uniq = []
+        for x in items:
+            if x not in uniq:
+                uniq.append(x)
+        items = uniq
     return 1 + sum(count_gathers(x) for x in items)
 
 
